@@ -15,6 +15,12 @@ RULE = ("cells = (route table x abstract host x cookie x path) and (route table 
 STRIP = ("conc",)
 
 
+def sort_file(path):
+    """TLC's workers emit in a run-dependent order: sort, so that (seed -> sampled cells) is reproducible."""
+    ls = sorted(open(path).read().splitlines(True))
+    open(path, "w").writelines(ls)
+
+
 def handle(ctx, viols, tracefile):
     for lineno, rules in viols:
         rec = None
@@ -59,7 +65,7 @@ def validate(ctx, obs, label):
 
 
 def params(tier):
-    return (6000, 1) if tier == "quick" else (0, 8)
+    return (0, 1) if tier == "quick" else (0, 8)
 
 
 def run(ctx):
@@ -82,6 +88,7 @@ def run(ctx):
     t0 = time.time()
     # Leg M and Leg G in one pass: Routing.Gen.cfg checks RulesHold / RouteIsMatch / TablesOK on every cell while emitting it
     cells, n = V.leg_g(ctx, "RoutingGen", "Routing.Gen.cfg", "CELL", "cells.jsonl", workers=10)
+    sort_file(cells)
     gen, dist = V.stats(open(os.path.join(ctx.scratch, "G-Routing.Gen.cfg.out")).read())
     ctx.cov["states"] += dist
     ctx.cov["transitions"] += gen
@@ -158,9 +165,8 @@ def run(ctx):
         ctx.cov["samples"].append(json.loads(lg[0]))
     ctx.cov["evaluations"] = total
     ctx.cov["distinct_nontrivial"] = len(nontrivial)
-    ctx.cov["exhaustive"] = not quick
-    ctx.cov["exhaustive_scope"] = ("every abstract cell executed %d times on seeded worlds" % reps) if not quick else \
-        "TLC model exhaustive; %d of %d cells executed" % (s["distinct"], n)
+    ctx.cov["exhaustive"] = s["distinct"] == n
+    ctx.cov["exhaustive_scope"] = "TLC model exhaustive; %d of %d abstract cells executed, %d concretisation(s) each, on seeded worlds" % (s["distinct"], n, reps)
     ctx.cov["constants"] = {"documents": 3, "routes_per_document": "5-6", "backends": 3, "users": 3, "provider_slugs": ["default", "idp-a", "idp-b", "nobody's"],
                             "worlds": "%d workers x 3 documents, pattern style / words / allow-list kind seeded per world" % V.NCPU}
     ctx.assumptions += [
@@ -178,6 +184,7 @@ def replay(ctx, path):
     rec = rp["record"]
     V.build_harness(ctx)
     cells, n = V.leg_g(ctx, "RoutingGen", "Routing.Gen.cfg", "CELL", "cells.jsonl", workers=10)
+    sort_file(cells)
     sample, reps = params(rp["tier"])
     obs = os.path.join(ctx.scratch, "rt.ndjson")
     V.harness(ctx, ["rt-run", "-in", cells, "-out", obs, "-seed", rp["seed"], "-sample", sample, "-reps", reps,
